@@ -432,6 +432,84 @@ example : accepts ⟨[⟨.int, .lref⟩], none⟩ (.bind none [.long]) ⟨.freeF
     ∧ accepts ⟨[⟨.int, .lref⟩], none⟩ (.bind none [.long]) ⟨.freeFn, [⟨.int, .lref⟩, ⟨.long, .rref⟩], none⟩ = false := by
   decide
 
+/-- `bind<I>(f, b...)` (positional): `I` must not exceed the number of signature parameters, no signature element may
+    be an rvalue reference, and `f` sees the first `I` stored lvalues, then modifiable lvalues of the bound types, then
+    the remaining stored lvalues — each forwarded argument with the const-ness its signature parameter gives it. -/
+theorem accepts_bind_at_iff (sig : Sig) (i : Nat) (bound : List Base) (fn : Fn) :
+    accepts sig (.bind (some i) bound) fn = true ↔
+      i ≤ sig.params.length ∧ (∀ a ∈ sig.params, a.shape ≠ .rref) ∧
+      bindsAll fn.params
+        ((sig.params.take i).map stored ++ bound.map boundExpr ++ (sig.params.drop i).map stored) = true ∧
+      fn.kind.objOk = true ∧ retOk fn.ret sig.ret = true := by
+  simp only [accepts, adaptArgs, Option.getD_some, gt_iff_lt]
+  by_cases hi : sig.params.length < i
+  · simp only [hi, if_true]
+    constructor
+    · intro hf
+      cases hf
+    · rintro ⟨hle, _⟩
+      omega
+  · simp only [hi, if_false]
+    cases h : tupleElems sig.params with
+    | none =>
+      have : ¬ ∀ a ∈ sig.params, a.shape ≠ .rref := fun hall => by
+        have := (tupleElems_iff _ _).2 ⟨hall, rfl⟩
+        rw [h] at this
+        cases this
+      constructor
+      · intro hf
+        cases hf
+      · rintro ⟨_, hall, _⟩
+        exact absurd hall this
+    | some es =>
+      obtain ⟨hall, hes⟩ := (tupleElems_iff _ _).1 h
+      subst hes
+      simp only [Option.map_some, invokeOk_eq, Bool.and_eq_true, ← List.map_take, ← List.map_drop]
+      constructor
+      · rintro ⟨⟨ho, hb⟩, hr⟩
+        exact ⟨by omega, hall, hb, ho, hr⟩
+      · rintro ⟨_, _, hb, ho, hr⟩
+        exact ⟨⟨ho, hb⟩, hr⟩
+
+/-- a stored tuple element of a signature parameter declared by value or `const&` is a *const* lvalue -/
+theorem stored_const_of_not_lref (a : Param) (hs : a.shape ≠ .lref) (hr : a.shape ≠ .rref) :
+    (stored a).const = true := by
+  cases a with
+  | mk b sh => cases sh <;> simp_all [stored, take]
+
+/-- **positional bind does not launder const-ness** (the statement's "a non-const reference parameter that would
+    bind to a value or const argument … is a compile error", *through* `bind<I>`): if `f`'s parameter at a forwarded
+    position `j < I` is a non-const reference while the signature declares that parameter by value or `const&`,
+    `bind<I>(f, b...)` is rejected. -/
+theorem bind_at_nonconst_ref_from_value_or_const_rejected (sig : Sig) (i j : Nat) (bound : List Base) (fn : Fn)
+    (hj : j < i) (h1 : j < fn.params.length) (h2 : j < sig.params.length)
+    (hf : fn.params[j].shape = .lref) (hs : sig.params[j].shape ≠ .lref) :
+    accepts sig (.bind (some i) bound) fn = false := by
+  cases hacc : accepts sig (.bind (some i) bound) fn
+  · rfl
+  · obtain ⟨hle, hall, hb, _, _⟩ := (accepts_bind_at_iff sig i bound fn).1 hacc
+    obtain ⟨hlen, hall2⟩ := (bindsAll_iff _ _).1 hb
+    have hjt : j < ((sig.params.take i).map stored).length := by simp; omega
+    have h3 : j < ((sig.params.take i).map stored ++ bound.map boundExpr ++ (sig.params.drop i).map stored).length := by
+      simp only [List.length_append]; omega
+    have hbj := hall2 j h1 h3
+    have hel : ((sig.params.take i).map stored ++ bound.map boundExpr ++ (sig.params.drop i).map stored)[j] =
+        stored sig.params[j] := by
+      simp only [List.append_assoc]
+      rw [List.getElem_append_left hjt]
+      simp
+    rw [hel] at hbj
+    have hc := stored_const_of_not_lref sig.params[j] hs (hall _ (List.getElem_mem h2))
+    have hnc := (lref_binds hf hbj)
+    simp_all
+
+example : accepts ⟨[⟨.int, .val⟩], none⟩ (.bind (some 0) [.long]) ⟨.freeFn, [⟨.long, .val⟩, ⟨.int, .lref⟩], none⟩ = false
+    ∧ accepts ⟨[⟨.int, .val⟩, ⟨.int, .val⟩], none⟩ (.bind (some 1) [.long])
+        ⟨.freeFn, [⟨.int, .lref⟩, ⟨.long, .val⟩, ⟨.int, .val⟩], none⟩ = false
+    ∧ accepts ⟨[⟨.int, .lref⟩, ⟨.int, .val⟩], none⟩ (.bind (some 1) [.long])
+        ⟨.freeFn, [⟨.int, .lref⟩, ⟨.long, .val⟩, ⟨.int, .cref⟩], none⟩ = true := by
+  decide
+
 /-- `retype(f)` (f a sigc functor with declared parameter types): accepted iff the arities agree, every passed
     expression can be `static_cast` to the declared parameter type, and the result converts — binding the cast
     results can then not fail. -/
